@@ -69,22 +69,27 @@ inductive TProg (α : Type) where
   | done : α → TProg α
   | readDirect : (k : Nat) → (onErr : Nat → Stop → α) → (cont : Bytes → TProg α) → TProg α
 
-/-- data phase -/
-inductive DProg (α : Type) where
-  | done : α → DProg α
+/-- data phase: reads exactly-sized pieces through the buffer; ends normally with a `β` or leaves
+    early with an `ε` (a failed read can only lead to an early exit) -/
+inductive DProg (ε β : Type) where
+  | done : β → DProg ε β
+  | exit : ε → DProg ε β
   /-- exactly `k` bytes through the buffer (`readFull`; `readByte`/`skipByte` are k = 1) -/
-  | readBuf : (k : Nat) → (onErr : RdStop → α) → (cont : Bytes → DProg α) → DProg α
-  /-- leave the data area: only possible when exactly `limit` bytes were consumed -/
-  | endData : (onBad : α) → (cont : TProg α) → DProg α
+  | readBuf : (k : Nat) → (onErr : RdStop → ε) → (cont : Bytes → DProg ε β) → DProg ε β
 
-/-- header phase -/
-inductive HProg (α : Type) where
-  | done : α → HProg α
-  | readDirect : (k : Nat) → (onErr : Nat → Stop → α) → (cont : Bytes → HProg α) → HProg α
-  /-- `d.bytes.limit = limit`, then the buffered phase -/
-  | data : (limit : Nat) → (p : DProg α) → HProg α
+/-- header phase and the sequencing of the phases.  The data phase returns either an early exit
+    `ε` (for the decoder: an error or a panic, never a success) or its result `β`. -/
+inductive HProg (α ε β : Type) where
+  | done : α → HProg α ε β
+  | readDirect : (k : Nat) → (onErr : Nat → Stop → α) → (cont : Bytes → HProg α ε β) → HProg α ε β
+  /-- `d.bytes.limit = limit`, the buffered phase, then — only if exactly `limit` bytes were
+      consumed (else `onBad`, the decoder's "pre-CRC" panic) — the trailer -/
+  | data : (limit : Nat) → (p : DProg ε β) → (onExit : ε → α) → (onBad : β → α) →
+      (after : β → TProg α) → HProg α ε β
+  /-- the buffered phase without a trailer (DecodeHeaderAndFileID) -/
+  | dataOnly : (limit : Nat) → (p : DProg ε β) → (onExit : ε → α) → (fin : β → α) → HProg α ε β
   /-- `io.CopyN(dst, r, limit)`, then the trailer; the continuation gets the copied bytes -/
-  | copyAll : (limit : Nat) → (onErr : Stop → α) → (cont : Bytes → TProg α) → HProg α
+  | copyAll : (limit : Nat) → (onErr : Stop → α) → (cont : Bytes → TProg α) → HProg α ε β
 
 /-! ### buffered interpreter (reader.go) -/
 
@@ -164,22 +169,28 @@ def runBufferedT {α} : TProg α → Reader → α × Reader
     | (.ok bs, r') => runBufferedT (cont bs) r'
     | (.error (got, e), r') => (onErr got e, r')
 
-def runBufferedD {α} : DProg α → BufSt → α × Reader
-  | .done a, b => (a, b.r)
+def runBufferedD {ε β} : DProg ε β → BufSt → (ε ⊕ β) × BufSt
+  | .done x, b => (.inr x, b)
+  | .exit e, b => (.inl e, b)
   | .readBuf k onErr cont, b =>
     match readFullB k b with
     | (.ok bs, b') => runBufferedD (cont bs) b'
-    | (.error e, b') => (onErr e, b'.r)
-  | .endData onBad cont, b =>
-    if b.n = b.limit then runBufferedT cont b.r else (onBad, b.r)
+    | (.error e, b') => (.inl (onErr e), b')
 
-def runBuffered {α} : HProg α → Reader → α × Reader
+def runBuffered {α ε β} : HProg α ε β → Reader → α × Reader
   | .done a, r => (a, r)
   | .readDirect k onErr cont, r =>
     match readDirectB k k r [] with
     | (.ok bs, r') => runBuffered (cont bs) r'
     | (.error (got, e), r') => (onErr got e, r')
-  | .data limit p, r => runBufferedD p { r := r, pending := [], n := 0, limit := limit }
+  | .data limit p onExit onBad after, r =>
+    match runBufferedD p { r := r, pending := [], n := 0, limit := limit } with
+    | (.inl e, b) => (onExit e, b.r)
+    | (.inr x, b) => if b.n = b.limit then runBufferedT (after x) b.r else (onBad x, b.r)
+  | .dataOnly limit p onExit fin, r =>
+    match runBufferedD p { r := r, pending := [], n := 0, limit := limit } with
+    | (.inl e, b) => (onExit e, b.r)
+    | (.inr x, b) => (fin x, b.r)
   | .copyAll limit onErr cont, r =>
     match copyNB limit limit r [] with
     | (.ok bs, r') => runBufferedT (cont bs) r'
@@ -202,24 +213,30 @@ def runSpecT {α} : TProg α → SpecSt → α × SpecSt
       runSpecT (cont (s.rest.take k)) { s with rest := s.rest.drop k, taken := s.taken + k }
     else (onErr s.rest.length s.stop, { s with rest := [], taken := s.taken + s.rest.length })
 
-/-- data phase over the list; `n` bytes of `limit` consumed so far -/
-def runSpecD {α} (limit : Nat) : DProg α → Nat → SpecSt → α × SpecSt
-  | .done a, _, s => (a, s)
+/-- data phase over the list; `n` bytes of `limit` consumed so far; returns the new `n` -/
+def runSpecD {ε β} (limit : Nat) : DProg ε β → Nat → SpecSt → (ε ⊕ β) × Nat × SpecSt
+  | .done x, n, s => (.inr x, n, s)
+  | .exit e, n, s => (.inl e, n, s)
   | .readBuf k onErr cont, n, s =>
     if k ≤ limit - n ∧ k ≤ s.rest.length then
       runSpecD limit (cont (s.rest.take k)) (n + k) { s with rest := s.rest.drop k, taken := s.taken + k }
-    else if limit - n ≤ s.rest.length then (onErr .limit, s)
-    else (onErr (RdStop.ofStop s.stop), s)
-  | .endData onBad cont, n, s =>
-    if n = limit then runSpecT cont s else (onBad, s)
+    else if limit - n ≤ s.rest.length then (.inl (onErr .limit), n, s)
+    else (.inl (onErr (RdStop.ofStop s.stop)), n, s)
 
-def runSpec {α} : HProg α → SpecSt → α × SpecSt
+def runSpec {α ε β} : HProg α ε β → SpecSt → α × SpecSt
   | .done a, s => (a, s)
   | .readDirect k onErr cont, s =>
     if k ≤ s.rest.length then
       runSpec (cont (s.rest.take k)) { s with rest := s.rest.drop k, taken := s.taken + k }
     else (onErr s.rest.length s.stop, { s with rest := [], taken := s.taken + s.rest.length })
-  | .data limit p, s => runSpecD limit p 0 { s with frameEnd := s.taken + limit }
+  | .data limit p onExit onBad after, s =>
+    match runSpecD limit p 0 { s with frameEnd := s.taken + limit } with
+    | (.inl e, _, s') => (onExit e, s')
+    | (.inr x, n, s') => if n = limit then runSpecT (after x) s' else (onBad x, s')
+  | .dataOnly limit p onExit fin, s =>
+    match runSpecD limit p 0 { s with frameEnd := s.taken + limit } with
+    | (.inl e, _, s') => (onExit e, s')
+    | (.inr x, _, s') => (fin x, s')
   | .copyAll limit onErr cont, s =>
     if limit ≤ s.rest.length then
       runSpecT (cont (s.rest.take limit))
